@@ -1,17 +1,20 @@
-"""Source translator: lib/strformat/c.py (FormatString.add_argument, Conversion.__init__, FormatString.__init__)
--> coq/Generated/FmtCSrc.v.  Proofs/FmtCSrc*.v prove the generated functions equal to the hand-written model Model/FmtC.v.
+"""Source translator: lib/strformat/c.py (FormatString.get_last_integer_conversion, FormatString.add_argument,
+Conversion.__init__, FormatString.__init__) -> coq/Generated/FmtCSrc.v.  Proofs/FmtCSrc*.v prove the generated functions equal to the hand-written model Model/FmtC.v.
 The generated text applies only the vocabulary of Model/FmtCPy.v, the data types of Model/FmtC.v and the tables of
 Generated/CInfo.v.  FAIL CLOSED: anything not listed here raises Unsupported (a definition-free FmtCSrc.v is written).
 
 Results.  A statement list becomes a term of type `cres T`: CRet v (completed), CAssert (failed assert), CRaise x.
 A method returns CRet (the attributes it leaves behind): add_argument -> (_argument_map, _next_arg_index);
 Conversion.__init__ -> (parent._argument_map, parent._next_arg_index, parent.warnings, self._s, self.type, self.integer);
-FormatString.__init__ -> (_items, arguments, warnings).  Extra parameters: maxd (sys.get_int_max_str_digits(), for int()),
+FormatString.__init__ -> (_items, arguments, warnings); get_last_integer_conversion -> CRet (None | Some conversion).
+Extra parameters: maxd (sys.get_int_max_str_digits(), for int()),
 cid (the identity of the Conversion object under construction = its index in _items), and for FormatString.__init__ the
 two oracles finditer (= _directive_re.finditer, a list of match objects) and printable_prefix (None = no match).
 
 Kinds (static, per path): str ostr char int oint bool pair opair (the rows of _info.int_types) counter amap warns arg args
-argss items typeset match none ellipsis, nn (a value of which only "is not None" is known: bool).  A local is a Gallina
+argss items typeset match none ellipsis, conv / oconv (a reference to a Conversion object: (index in _items, .integer),
+or None), stararg / convarg (an element of the argument map known to be a VariableWidth|VariablePrecision / a Conversion),
+nn (a value of which only "is not None" is known: bool).  A local is a Gallina
 `let` of the same name (v_<name>; self.<x> -> a_<x>; the parent's state in Conversion.__init__ -> p_<x>); rebinding shadows.
 
 Expressions.  str / int literals; None; ... ; names; NL_ARGMAX, INT_MAX -> c_NL_ARGMAX, c_INT_MAX; `i = _info` then i.<x> ->
@@ -49,7 +52,14 @@ Statements (rest = what follows).
       enumerate(l, start=a), _directive_re.finditer(s)) -> Fixpoint over the list; state = the variables the body rebinds;
       `break` -> CRet state; no continue / return / else.
   self._items = items = [] makes `items` an alias of the attribute.
-Not translated: get_last_integer_conversion, __iter__, __len__, the regexes (oracles; the pattern text of _directive_re is
+get_last_integer_conversion only: a - b on ints; l[i] as a loop iterable -> py_index (None => IndexError, negative indices
+  from the end); `if isinstance(x, (VariableWidth, VariablePrecision))` / `isinstance(x, Conversion)` on an element x ->
+  arg_is_star / arg_is_conv, x refined in the true branch; x.parent only on a refined stararg -> (a_cid x, a_integer x); a
+  refined convarg used as a value -> the same pair; a is b / a is not b on these references (b not None) -> equality of the
+  index in _items (object identity), None is never identical to an object; c.integer -> snd c; v = w = None;
+  return / return None / return c, also inside loops: such a loop returns CRet (inl state) when it completes and
+  CRet (inr v) for `return v`, which is passed outwards (cbind .. (fun r => match r with inl .. => rest | inr v => ..)).
+Not translated: __iter__, __len__, the regexes (oracles; the pattern text of _directive_re is
 emitted as data, whitespace outside character classes removed as re.VERBOSE does), the `message` attributes.
 """
 import ast
@@ -61,8 +71,9 @@ TYPES = {'str': 'list N', 'ostr': 'option (list N)', 'char': 'N', 'int': 'Z', 'o
          'none': 'unit', 'ellipsis': 'unit', 'pair': '(list N * list N)', 'opair': 'option (list N * list N)', 'counter': 'list N',
          'amap': 'list (Z * arg)', 'warns': 'list cwarn', 'arg': 'arg', 'args': 'list arg', 'argss': 'list (list arg)',
          'items': 'list item', 'typeset': 'list (list N)', 'match': 'cmatch', 'N': 'N', 'nat': 'nat', 'ovf': 'Z',
+         'conv': '(nat * bool)', 'oconv': 'option (nat * bool)', 'stararg': 'arg', 'convarg': 'arg',
          'o_finditer': 'list N -> list cmatch', 'o_prefix': 'list N -> option (list N)', 'info': 'unit', 'parent': 'unit', 'self': 'unit'}
-OPT = {'ostr': 'str', 'oint': 'int', 'opair': 'pair'}
+OPT = {'ostr': 'str', 'oint': 'int', 'opair': 'pair', 'oconv': 'conv'}
 OPTOF = {v: k for k, v in OPT.items()}
 GROUPS = ['literal', 'index', 'flags', 'width', 'varwidth', 'varwidth_index', 'precision', 'varprec', 'varprec_index', 'length',
           'conversion', 'c99conv', 'c99len']
@@ -91,8 +102,9 @@ SIGS = {   # method -> (python parameters, environment at entry, returned variab
     'FormatString.__init__': (['self', 's'],
                               [('maxd', 'N'), ('o_finditer', 'o_finditer'), ('o_prefix', 'o_prefix'), ('v_s', 'str')],
                               [('a__items', 'items'), ('a_arguments', 'argss'), ('a_warnings', 'warns')], False),
+    'get_last_integer_conversion': (['self', '*n'], [('maxd', 'N'), ('a_arguments', 'argss'), ('v_n', 'int')], 'oconv', False),
 }
-COQ = {'add_argument': 'src_add_argument', 'Conversion.__init__': 'src_conversion_init', 'FormatString.__init__': 'src_formatstring_init'}
+COQ = {'get_last_integer_conversion': 'src_get_last_integer_conversion', 'add_argument': 'src_add_argument', 'Conversion.__init__': 'src_conversion_init', 'FormatString.__init__': 'src_formatstring_init'}
 
 
 class Unsupported(Exception):
@@ -158,10 +170,12 @@ class Fn:
         self.key, self.fdef, self.cls, self.name = key, fdef, cls, COQ[key]
         params, self.entry, self.rets, self.sectioned = SIGS[key]
         a = fdef.args
-        if [x.arg for x in a.args] != params or a.posonlyargs or a.kwonlyargs or a.kwarg or a.vararg or a.defaults or fdef.decorator_list:
+        if [x.arg for x in a.args] + ['*' + x.arg for x in a.kwonlyargs] != params or a.posonlyargs or a.kwarg or a.vararg or a.defaults \
+                or any(d is not None for d in a.kw_defaults) or fdef.decorator_list:
             bad(fdef, 'signature')
         self.defs, self.pre, self.ntok, self.nsec, self.nloop = [], [], 0, 0, 0
         self.alias = {}
+        self.retk = [lambda v: 'CRet %s' % v]      # how `return v` ends the enclosing construct
 
     # ------------------------------------------------------------ environment: name -> (kind, version)
     def set(self, env, name, kind):
@@ -235,6 +249,12 @@ class Fn:
             a, ka = self.want(e.left, env, ['str', 'int'])
             b, kb = self.want(e.right, env, [ka])
             return ('(%s %s %s)' % (a, '++' if ka == 'str' else '+', b), ka)
+        elif isinstance(e, ast.BinOp) and isinstance(e.op, ast.Sub):
+            return ('(%s - %s)' % (self.want(e.left, env, ['int'])[0], self.want(e.right, env, ['int'])[0]), 'int')
+        elif isinstance(e, ast.Attribute) and e.attr == 'parent' and self.var(e.value) in env and env[self.var(e.value)][0] == 'stararg':
+            return ('(a_cid %s, a_integer %s)' % (self.var(e.value), self.var(e.value)), 'conv')
+        elif isinstance(e, ast.Attribute) and e.attr == 'integer' and self.var(e.value) in env and env[self.var(e.value)][0] == 'conv':
+            return ('(snd %s)' % self.var(e.value), 'bool')
         elif isinstance(e, ast.UnaryOp) and isinstance(e.op, ast.Not):
             return ('(negb %s)' % self.truth(e.operand, env), 'bool')
         elif isinstance(e, ast.BoolOp):
@@ -290,6 +310,13 @@ class Fn:
             _, static, t = self.noneness(e.left, env)
             t = t if static is None else str(static).lower()
             return (t if isinstance(e.ops[0], ast.IsNot) else '(negb %s)' % t, 'bool')
+        if len(e.ops) == 1 and isinstance(e.ops[0], (ast.Is, ast.IsNot)):
+            a, ka = self.objref(e.left, env)
+            b, kb = self.objref(e.comparators[0], env)
+            if kb != 'conv':
+                bad(e, 'identity test')
+            c = '(Nat.eqb (fst %s) (fst %s))' % (a, b) if ka == 'conv' else '(oconv_is %s %s)' % (a, b)
+            return (c if isinstance(e.ops[0], ast.Is) else '(negb %s)' % c, 'bool')
         if len(e.ops) == 1 and isinstance(e.ops[0], (ast.In, ast.NotIn)):
             c = self.member(e.left, e.comparators[0], env)
             return (c if isinstance(e.ops[0], ast.In) else '(negb %s)' % c, 'bool')
@@ -298,6 +325,17 @@ class Fn:
             parts.append(self.cmp1(left, op, right, env, pure=bool(parts)))
             left = right
         return (parts[0] if len(parts) == 1 else '(%s)' % ' && '.join(parts), 'bool')
+
+    def objref(self, e, env):
+        """a reference to a Conversion object (its identity and .integer) or None"""
+        t, k = self.ex(e, env)
+        if k == 'convarg':
+            return ('(a_cid %s, a_integer %s)' % (t, t), 'conv')
+        if k == 'none':
+            return ('None', 'oconv')
+        if k in ('conv', 'oconv'):
+            return (t, k)
+        bad(e, 'identity test on ' + k)
 
     def cmp1(self, l, op, r, env, pure):
         one = lambda x: isinstance(x, ast.Constant) and type(x.value) is str and len(x.value) == 1
@@ -427,6 +465,11 @@ class Fn:
             return self.wrap(self.take(), 'CRaise %s' % x)
         if isinstance(s, ast.Break):
             return self.brk(env)
+        if isinstance(s, ast.Return) and self.rets == 'oconv':
+            if s.value is None or ast.unparse(s.value) == 'None':
+                return self.retk[-1]('None')
+            t, kd = self.objref(s.value, env)
+            return self.wrap(self.take(), self.retk[-1](coerce(t, kd, 'oconv')))
         if isinstance(s, ast.Assert):
             if ast.unparse(s.test) == 'False':
                 return 'CAssert'
@@ -464,6 +507,18 @@ class Fn:
             return (self.var(test.left), isinstance(test.ops[0], ast.IsNot))
         return None
 
+    def isinstance_test(self, test, env):
+        """isinstance(v, (VariableWidth, VariablePrecision)) / isinstance(v, Conversion) on a variable of kind arg"""
+        if isinstance(test, ast.Call) and ast.unparse(test.func) == 'isinstance' and len(test.args) == 2 and not test.keywords \
+                and self.var(test.args[0]) in env and env[self.var(test.args[0])][0] == 'arg' and 'v_isinstance' not in env \
+                and all(self.cls['star_ok'].values()):
+            c = ast.unparse(test.args[1])
+            if c in ('(VariableWidth, VariablePrecision)', '(VariablePrecision, VariableWidth)'):
+                return (self.var(test.args[0]), 'arg_is_star', 'stararg')
+            if c == 'Conversion':
+                return (self.var(test.args[0]), 'arg_is_conv', 'convarg')
+        return None
+
     def static_test(self, test, env):
         if isinstance(test, ast.Compare) and len(test.ops) == 1 and isinstance(test.ops[0], (ast.Is, ast.IsNot)) \
                 and ast.unparse(test.comparators[0]) == 'None':
@@ -476,8 +531,15 @@ class Fn:
         st = self.static_test(s.test, env)
         if st is not None:
             return self.tr((s.body if st else s.orelse) + rest, env, k, top)
-        r = self.refine_test(s.test, env)
-        if r:
+        isi = self.isinstance_test(s.test, env)
+        r = None if isi else self.refine_test(s.test, env)
+        if isi:
+            v, pred, kind = isi
+            etrue = dict(env)
+            self.set(etrue, v, kind)
+            mk = lambda ta, tb: 'if %s %s then\n%s\nelse\n%s' % (pred, v, ind(ta), ind(tb))
+            branches, pre = [(s.body, etrue), (s.orelse, env)], []
+        elif r:
             v, notnone = r
             some, none = (s.body, s.orelse) if notnone else (s.orelse, s.body)
             esome, enone = dict(env), dict(env)
@@ -575,7 +637,9 @@ class Fn:
             self.set(env, names[0], 'amap')
             return 'let %s := [] in\n%s' % (names[0], go(env))
         t, kd = self.ex(val, env)
-        if kd not in TYPES or kd in ('info', 'parent', 'self'):
+        if kd == 'convarg':
+            t, kd = self.objref(val, env)
+        if kd not in TYPES or kd in ('info', 'parent', 'self', 'stararg', 'arg'):
             bad(s, 'assignment of ' + kd)
         pre = self.take()
         out = []
@@ -693,6 +757,11 @@ class Fn:
         elif src.startswith('enumerate(') and len(it.args) == 1 and len(it.keywords) == 1 and it.keywords[0].arg == 'start' and 'v_enumerate' not in env:
             lst = '(py_enumerate %s %s)' % (self.want(it.keywords[0].value, env, ['int'])[0], self.want(it.args[0], env, ['argss'])[0])
             kinds = ['int', 'args']
+        elif isinstance(it, ast.Subscript) and not isinstance(it.slice, ast.Slice):
+            l0, i0 = self.want(it.value, env, ['argss'])[0], self.want(it.slice, env, ['int'])[0]
+            self.ntok += 1
+            lst, kinds = 't%d' % self.ntok, ['arg']
+            self.pre.append(('match py_index %s %s with\n| None => CRaise XIndex\n| Some %s =>' % (l0, i0, lst), '\nend'))
         elif src.startswith('_directive_re.finditer(') and len(it.args) == 1 and not it.keywords and 'o_finditer' in env:
             lst, kinds = '(o_finditer %s)' % self.want(it.args[0], env, ['str'])[0], ['match']
         else:
@@ -700,8 +769,11 @@ class Fn:
         if len(kinds) != len(tn):
             bad(s, 'loop target')
         pre = self.take()
+        retmode = any(isinstance(n, ast.Return) for n in ast.walk(s))
+        if retmode and self.rets != 'oconv':
+            bad(s, 'return inside a loop')
         for n in ast.walk(s):
-            if isinstance(n, (ast.Continue, ast.Return)):
+            if isinstance(n, ast.Continue):
                 bad(n, 'inside a loop')
         self.nloop += 1
         name = '%s_loop%d' % (self.name, self.nloop)
@@ -719,10 +791,14 @@ class Fn:
                 exits.append((self.token(), e, kind))
                 return exits[-1][0]
             old_brk, self.brk = self.brk, lambda e: again(e, 'break')
+            if retmode:
+                self.retk.append(lambda v: 'CRet (inr %s)' % v)
             try:
                 body = self.tr(s.body, benv, again)
             finally:
                 self.brk = old_brk
+                if retmode:
+                    self.retk.pop()
             names = [n for n in entry if any(n in e and e[n][1] != entry[n][1] for _, e, _ in exits)]
             if any(n not in e for n in names for _, e, _ in exits):
                 bad(s, 'a variable of the loop state is not bound on every path')
@@ -739,16 +815,22 @@ class Fn:
         head = ' '.join([name] + [n for n, _ in fixed])
         for tok, e, kind in exits:
             st = ' '.join(coerce(n, e[n][0], kd) for n, kd in state)
-            body = body.replace(tok, '%s l\' %s' % (head, st) if kind == 'again' else 'CRet %s' % tup([coerce(n, e[n][0], kd) for n, kd in state]))
+            done = tup([coerce(n, e[n][0], kd) for n, kd in state])
+            body = body.replace(tok, '%s l\' %s' % (head, st) if kind == 'again' else 'CRet (inl %s)' % done if retmode else 'CRet %s' % done)
         elem = tn[0] if len(tn) == 1 else '(%s)' % ', '.join(tn)
         elty = ' * '.join(TYPES[kd] for kd in kinds)
-        self.defs.append('Fixpoint %s%s (l : list (%s))%s {struct l} : cres (%s) :=\n  match l with\n  | [] => CRet %s\n  | %s :: l\' =>\n%s\n  end.\n' % (
+        rty = '(%s) + %s' % (tupty([kd for _, kd in state]), TYPES['oconv']) if retmode else tupty([kd for _, kd in state])
+        base = ('CRet (inl %s)' if retmode else 'CRet %s') % tup([n for n, _ in state])
+        self.defs.append('Fixpoint %s%s (l : list (%s))%s {struct l} : cres (%s) :=\n  match l with\n  | [] => %s\n  | %s :: l\' =>\n%s\n  end.\n' % (
             name, ''.join(' (%s : %s)' % (n, TYPES[kd]) for n, kd in fixed), elty, ''.join(' (%s : %s)' % (n, TYPES[kd]) for n, kd in state),
-            tupty([kd for _, kd in state]), tup([n for n, _ in state]), elem, ind(ind(body))))
+            rty, base, elem, ind(ind(body))))
         env2 = dict(env)
         for n, kd in state:
             self.set(env2, n, kd)
         init = ' '.join(coerce(n, env[n][0], kd) for n, kd in state)
+        if retmode:
+            return self.wrap(pre, 'cbind (%s %s %s) (fun r => match r with\n| inl %s =>\n%s\n| inr v => %s\nend)' % (
+                head, lst, init, pat([n for n, _ in state]).lstrip("'"), ind(self.tr(rest, env2, k, top)), self.retk[-1]('v')))
         return self.wrap(pre, 'cbind (%s %s %s) (fun %s =>\n%s)' % (head, lst, init, pat([n for n, _ in state]), self.tr(rest, env2, k, top)))
 
     # ------------------------------------------------------------ whole method
@@ -760,10 +842,13 @@ class Fn:
             self.set(env, 'v_parent', 'parent')
 
         def result(e):
+            if self.rets == 'oconv':
+                return 'CRet None'       # falling off the end returns None
             return 'CRet %s' % tup([coerce(n, e[n][0], kd) if n in e else bad(self.fdef, 'no value for ' + n) for n, kd in self.rets])
         text = self.tr(self.fdef.body, env, result, top=True)
         sig = ''.join(' (%s : %s)' % (n, TYPES[kd]) for n, kd in self.entry)
-        return '\n'.join(self.defs + ['Definition %s%s : cres (%s) :=\n%s.\n' % (self.name, sig, tupty([kd for _, kd in self.rets]), ind(text))])
+        rty = TYPES['oconv'] if self.rets == 'oconv' else tupty([kd for _, kd in self.rets])
+        return '\n'.join(self.defs + ['Definition %s%s : cres (%s) :=\n%s.\n' % (self.name, sig, rty, ind(text))])
 
 
 def verbose_pattern(p):
@@ -846,7 +931,8 @@ def generate():
            'Import ListNotations.', 'Local Open Scope Z_scope.', '',
            '(* _directive_re: the pattern as re.VERBOSE reads it *)',
            'Definition src_directive_re : list N := %s.' % lit(verbose_pattern(d.value.args[0].value)), '']
-    for key, (cname, mname) in (('add_argument', ('FormatString', 'add_argument')), ('Conversion.__init__', ('Conversion', '__init__')),
+    for key, (cname, mname) in (('get_last_integer_conversion', ('FormatString', 'get_last_integer_conversion')),
+                                ('add_argument', ('FormatString', 'add_argument')), ('Conversion.__init__', ('Conversion', '__init__')),
                                 ('FormatString.__init__', ('FormatString', '__init__'))):
         if (cname, mname) not in methods:
             raise Unsupported('method %s.%s is missing' % (cname, mname))
